@@ -39,6 +39,16 @@ type sNode struct {
 
 type sTree map[string]sNode
 
+// keys: the paths in sorted order (generators draw random numbers per entry: map order must not decide which)
+func (t sTree) keys() []string {
+	paths := make([]string, 0, len(t))
+	for p := range t {
+		paths = append(paths, p)
+	}
+	sort.Strings(paths)
+	return paths
+}
+
 func (t sTree) write(root string) {
 	paths := make([]string, 0, len(t))
 	for p := range t {
@@ -272,7 +282,10 @@ func excludedByKind(rules []string, rel string, isDir bool) bool {
 		dir := isDir || i < len(parts)-1
 		for _, r := range rules {
 			include := strings.HasPrefix(r, "+ ")
-			pat := strings.TrimPrefix(strings.TrimPrefix(r, "+ "), "- ")
+			pat := r // exactly one prefix is the rule's kind; what follows is the name, whatever it begins with
+			if include || strings.HasPrefix(r, "- ") {
+				pat = r[2:]
+			}
 			if strings.HasSuffix(pat, "/") {
 				if !dir {
 					continue
@@ -433,7 +446,11 @@ func suiteSession(h *H) {
 		dirs := []string{""}
 		for j := 0; j < nf; j++ {
 			parent := dirs[h.rng.Intn(len(dirs))]
-			name := []string{"a", "b", "c", "d", "e", "file with space", "caf\xc3\xa9", "x\xffy", ".dot", "z.txt"}[h.rng.Intn(10)]
+			// (names that begin like a rule prefix are plain names too: --exclude='+ plus' names the entry "+ plus")
+			name := []string{"a", "b", "c", "d", "e", "file with space", "caf\xc3\xa9", "x\xffy", ".dot", "z.txt", "+ plus", "- minus", "plus", "minus"}[h.rng.Intn(14)]
+			if i%8 == 0 { // every eighth case: only names that look like rules, and rules naming them
+				name = []string{"+ plus", "- minus", "plus", "minus", "a"}[h.rng.Intn(5)]
+			}
 			p := filepath.Join(parent, name)
 			if _, dup := src[p]; dup {
 				continue
@@ -468,7 +485,8 @@ func suiteSession(h *H) {
 			names = append(names, p)
 		}
 		dst := sTree{}
-		for p, n := range src {
+		for _, p := range src.keys() {
+			n := src[p]
 			switch h.rng.Intn(7) {
 			case 0: // identical
 				dst[p] = n
@@ -538,7 +556,7 @@ func suiteSession(h *H) {
 			{"-rlD"}, {"-a", "--no-D"}, {"-rlogc"}, {"-rDg", "--delete"}, {"-a", "--no-l", "--no-t"}, {"-ro", "-I"}}
 		opts := append([]string{}, optSets[h.rng.Intn(len(optSets))]...)
 		var rules []string
-		if h.rng.Intn(3) == 0 && len(names) > 0 {
+		if (i%8 == 0 || h.rng.Intn(3) == 0) && len(names) > 0 {
 			for k := 1 + h.rng.Intn(2); k > 0; k-- {
 				nm := filepath.Base(names[h.rng.Intn(len(names))])
 				if h.rng.Intn(4) == 0 {
